@@ -66,7 +66,7 @@ class Ctx:
     # rules whose refutations are produced by an analysis of behaviour (flow graph, abstract interpretation, languages, intervals,
     # taint) and therefore stand in a restructured function as well; everything else is gated, see ob()
     SEMANTIC_RULES = frozenset("""
-        R01f R02g R03a R04e R06d R07h R08h R08i R08j R09a R09f R09i R10b R10d R10j R10k R10l R10m R11a R12d R12e R12h
+        R01f R02g R03a R04e R06d R07h R08e R08h R08i R08j R09a R09f R09i R10b R10d R10j R10k R10l R10m R11a R12d R12e R12h
         R13a R13b R13c R13e R14a R14e R15a R15b R15e R16g R17b R18g R20a R20b R20d""".split())
 
     def semantic(self, *rules):
